@@ -523,6 +523,9 @@ func main() {
 	const pairLimit = 20
 	var jobs []job
 	for _, p := range preps {
+		if p.sc.NoFaults {
+			continue
+		}
 		K := len(p.dry.Ops)
 		for k := 1; k <= K; k++ {
 			for _, kind := range kindsFor(p.dry.Ops[k-1].Op, run.Thorough()) {
